@@ -402,6 +402,59 @@ def interleaved_generators(ctx, rng):
         sess.close_loop()
         return out
 
+    def two_devices(mode, k):
+        """Two device objects alive in one process, each with its own device; both number their streams from 1, so their (remote id,
+        local id) pairs coincide.  Nothing one object reads or parks may reach the other."""
+        devs, sesss = [], []
+        for d in range(2):
+            dev = simdev.SimDevice(chooser=simdev.Seeded(k + d), seed=k)
+            tag = b'AB'[d:d + 1]
+            dev.shell_scripts[b'shell:x'] = [tag + b'1;', tag + b'2;', tag + b'3;']
+            dev.shell_scripts[b'shell:whole'] = [tag + b'w1;', tag + b'w2;']
+            devs.append(dev)
+            sesss.append(env.Session(mode, dev, clock=sesss[0].clock if sesss else None))
+        out = {'A': [], 'B': [], 'wholeA': None, 'wholeB': None}
+
+        def step(d, g):
+            s_ = sesss[d]
+            s_.rebind_clock()
+            return next(g) if mode == 'sync' else s_.loop.run_until_complete(g.__anext__())
+
+        def call(d, api, *a, **kw):
+            s_ = sesss[d]
+            s_.rebind_clock()
+            f = getattr(s_.device, api)
+            return f(*a, **kw) if mode == 'sync' else s_.loop.run_until_complete(f(*a, **kw))
+        try:
+            for d in range(2):
+                assert call(d, 'connect') is True
+            gens = []
+            for d in range(2):
+                g = sesss[d].device.streaming_shell('x', decode=False, read_timeout_s=2.0)
+                gens.append(iter(g) if mode == 'sync' else g.__aiter__())
+            order = [(0, 'g'), (1, 'g'), (0, 'w'), (1, 'g'), (1, 'w'), (0, 'g'), (0, 'g'), (1, 'g')] if k % 2 == 0 else [(1, 'g'), (0, 'g'), (1, 'w'), (0, 'w'), (0, 'g'), (1, 'g'), (1, 'g'), (0, 'g')]
+            for d, what in order:
+                try:
+                    if what == 'g':
+                        out['AB'[d]].append(step(d, gens[d]))
+                    else:
+                        out['whole' + 'AB'[d]] = call(d, 'shell', 'whole', decode=False, read_timeout_s=2.0)
+                except (StopIteration, StopAsyncIteration):
+                    pass
+                except Exception as e:  # noqa
+                    out.setdefault('errors', []).append(('AB'[d], what, type(e).__name__))
+        finally:
+            for s_ in sesss:
+                s_.close_loop()
+        return out
+
+    for mode in ('sync', 'async'):
+        for k in range(4):
+            out = two_devices(mode, k)
+            n += 1
+            want = {'A': [b'A1;', b'A2;', b'A3;'], 'B': [b'B1;', b'B2;', b'B3;'], 'wholeA': b'Aw1;Aw2;', 'wholeB': b'Bw1;Bw2;'}
+            if out != want:
+                ctx.violation('C06.SameAsAlone', dict(kind='two device objects alive at once, streams with coinciding ids', mode=mode, variant=k, observed={a: repr(b)[:100] for a, b in out.items()}))
     for mode in ('sync', 'async'):
         for with_close in (True, False):
             for k in range(4):
